@@ -5,6 +5,7 @@ import (
 	"fmt"
 	sharedConfig "lunar/shared-model/config"
 	"lunar/toolkit-core/urltree"
+	"strings"
 
 	"github.com/rs/zerolog/log"
 )
@@ -65,12 +66,18 @@ func BuildEndpointPolicyTree(
 func isDeclaredOn(policies map[urltree.Method]EndpointPolicy, url string) bool {
 	declaredOn := false
 	for _, policy := range policies {
-		if policy.URL != url {
+		if declaredURLKey(policy.URL) != declaredURLKey(url) {
 			return false
 		}
 		declaredOn = true
 	}
 	return declaredOn
+}
+
+// declaredURLKey is the form under which the URL tree stores a declared URL: it ignores
+// leading and trailing separators, so "a.com/x" and "a.com/x/" are one and the same node.
+func declaredURLKey(url string) string {
+	return strings.Trim(url, "./")
 }
 
 func newEndpointPolicyTree() *EndpointPolicyTree {
